@@ -115,8 +115,8 @@ Section All.
       unfold policy_b, after_b, clr_unary, lstep; cbn [f_unary f_between f_type f_tillin lclass orb]. rewrite Hwt.
       rewrite ?orb_false_r. cbn [orb eflag_ok] in *. fin IH.
     - (* XBind *)
-      rewrite Hk. apply andb_true_iff in Hn. destruct Hn as [Hin Hitem]. apply negb_true_iff in Hitem.
-      cbn [tok_ok_b f_tillin orb]. rewrite (key_word keys _ Hkeys (key_mem keys n Hin)), Hitem. cbn [negb andb].
+      rewrite Hk. pose proof Hn as Hin.
+      cbn [tok_ok_b f_tillin orb]. rewrite (key_word keys _ Hkeys (key_mem keys n Hin)). cbn [negb andb].
       unfold policy_b, after_b, clr_unary, set_tillin, lstep; cbn [f_unary f_between f_type f_tillin lclass orb]. wt_off. wb_off. rewrite ?orb_false_r. cbn [orb].
       cbn [tok_ok_b tok_ok f_tillin f_type f_between f_unary andb orb negb]. flags_norm. cbn [eflag_ok] in Hf. fin IH.
     - (* XPar *)
@@ -194,7 +194,7 @@ Section All.
       rewrite !andb_true_iff in Hk. destruct Hk as [[Hwb Hpar] _]. apply negb_true_iff in Hwb, Hpar.
       cbn [eabs_b]. rewrite Hwb, Hpar. rewrite (key_pos n Hn). unfold lstep; cbn [lclass]. rewrite (IH _ Hnr Htr). reflexivity.
     - (* XBind *)
-      apply andb_true_iff in Hn. destruct Hn as [Hin _].
+      pose proof Hn as Hin.
       cbn [eabs_b]. rewrite Hk. rewrite (key_pos n Hin). unfold lstep; cbn [lclass]. rewrite (IH _ Hnr Htr). reflexivity.
     - (* XPar *)
       destruct ty as [ty|]; cbn [econc app].
